@@ -206,7 +206,7 @@ class Register:
 
         context = context or {}
 
-        if self.size is not None and idx >= self.size:
+        if idx < 0 or (self.size is not None and idx >= self.size):
             raise JaqalError("Index out of range.")
         if self.fundamental:
             return (self, idx)
@@ -290,7 +290,7 @@ class NamedQubit:
                 from_size = int(alias_from.size)
             except JaqalError:
                 return
-            if alias_index >= from_size:
+            if alias_index < 0 or alias_index >= from_size:
                 raise JaqalError("Index out of range.")
 
     def __hash__(self):
